@@ -100,7 +100,7 @@ LOUD = [
   ('ps_closure', [(SER, A0, A0 + '\tlet mut f = |n| sizes.push(Event::Item, n);\n\tf(3);\n')], 'WriterSizes.v'),
   ('ps_unknown_size', [(SER, 'FRAME_NUMBER + PORT + Pre::size(ver)', 'FRAME_NUMBER + PORT + Pre::size(ver) * 2')], 'WriterSizes.v'),
   ('ps_other_cond', [(SER, 'if ver.gte(2, 2) {', 'if ver.gte(2, 2) && game.end.is_some() {')], 'WriterSizes.v'),
-  ('ps_lt', [(SER, 'if ver.gte(2, 2) {', 'if !ver.lt(2, 2) {')], 'WriterSizes.v'),
+  ('ps_lt', [(SER, 'if ver.gte(2, 2) {', 'if ver.lt(2, 2) {')], 'WriterSizes.v'),      # (the harmless spelling `!ver.lt(2, 2)` is now normalised: benign2/07)
   ('ps_game_end_record', [(SER, 'FRAME_NUMBER + End::size(ver)', 'FRAME_NUMBER + game::End::size(ver)')], 'WriterSizes.v'),
   ('ps_push_changed', [(SER, 'self.sizes.push((event as u8, size.try_into().unwrap()))', 'self.sizes.push((event as u8, size as u16))')], 'WriterSizes.v'),
   ('ps_dup_event', [(SER, A0, A0 + A0)], 'WriterSizes.v'),
